@@ -46,6 +46,11 @@ impl SafetySys {
             }
             v.push((CK::Skip, s, 0));
             v.push((CK::Final, s, 0));
+            // adversarial shapes a correct validator must refuse: the Byzantine signer in both halves
+            v.push((CK::Skip, s, 0x80));
+            for b in 0..=self.max_blk {
+                v.push((CK::NotarFb, s, b | 0x80));
+            }
         }
         v
     }
@@ -59,6 +64,8 @@ impl SafetySys {
                 let c = self.inner.factory.raw_cert(&spec);
                 (spec, c)
             })
+            // whatever the real validator refuses does not exist for correct nodes
+            .filter(|(_, c)| validate_cert_cached(c, &self.inner.epoch).is_some())
             .collect()
     }
 
